@@ -1214,6 +1214,92 @@ fn emit_random_from(out: &mut Out, rng: &mut Rng, id: String, thorough: bool, wi
     }
 }
 
+/// Configuration-shape family (`cfg` cases): 3-5 exchanges, every one with at least one spot
+/// instrument, and link shapes (by EXCHANGE INDEX order) that the random family produces rarely or
+/// never: TWO link-less (tracked-but-not-traded) exchanges before the first linked one, only the
+/// LAST / only a MIDDLE / only the FIRST exchange linked, link-less + live + mock, nothing linked;
+/// the `add_*` calls in index order or in reverse; then a buy and a sell on an own instrument of
+/// EVERY exchange index (linked or not) and one beyond the last.
+fn emit_cfg(out: &mut Out, rng: &mut Rng, id: String, k: usize) {
+    out.case(id);
+    let n_ex = rng.range(3, 5) as usize;
+    let mut labels: Vec<usize> = (0..EXS.len()).collect();
+    for i in (1..labels.len()).rev() {
+        let j = rng.below(i as u64 + 1) as usize;
+        labels.swap(i, j);
+    }
+    labels.truncate(n_ex);
+    let mut g = Gen {
+        rng: rng.fork(),
+        wf_assets: true,
+        unique_names: true,
+        nonspot: 0,
+        n_ex: 1,
+        next_name: 0,
+        labels: vec![],
+    };
+    let mut used = vec![];
+    let mut defs: Vec<D> = vec![];
+    for e in &labels {
+        g.labels = vec![*e];
+        defs.push(g.def(&mut used));
+    }
+    g.labels = labels.clone();
+    g.n_ex = n_ex;
+    for _ in 0..rng.range(0, 3) {
+        defs.push(g.def(&mut used));
+    }
+    for i in (1..defs.len()).rev() {
+        let j = rng.below(i as u64 + 1) as usize;
+        defs.swap(i, j);
+    }
+    for d in &defs {
+        out.line(format!("def {}", def_toks(d)));
+    }
+    out.line("index");
+    let ii = index(&defs);
+    let by_index: Vec<usize> = ii.exchanges().iter().map(|x| label(x.value)).collect();
+    let n = by_index.len();
+    // per exchange index: 0 = link-less, 1 = mock, 2 = live
+    let shape: Vec<u8> = (0..n)
+        .map(|x| match k % 6 {
+            0 => (x >= 2) as u8,
+            1 => (x == n - 1) as u8,
+            2 => (x == n / 2) as u8,
+            3 => (x == 0) as u8,
+            4 => match x {
+                0 => 0,
+                1 => 2,
+                _ => 1,
+            },
+            _ => 0,
+        })
+        .collect();
+    let mut calls: Vec<usize> = (0..n).collect();
+    if (k / 6) % 2 == 1 {
+        calls.reverse();
+    }
+    for x in calls {
+        match shape[x] {
+            1 => out.line(mock_toks(&gen_mock(rng, &ii, by_index[x], false))),
+            2 => out.line(format!("live {}", by_index[x])),
+            _ => {}
+        }
+    }
+    out.line("build");
+    for x in 0..=n {
+        let own: Vec<usize> = ii
+            .instruments()
+            .iter()
+            .filter(|i| i.value.exchange.key.0 == x)
+            .map(|i| i.key.0)
+            .collect();
+        let i = if own.is_empty() { 0 } else { *rng.pick(&own) };
+        out.line(format!("order {x} {i} B M 1 1"));
+        out.line(format!("order {x} {i} S M 2 1"));
+    }
+}
+
 /// Small-scope enumeration: every set of up to 3 definitions from a universe of 10 (per exchange 0 / 1:
 /// three spot instruments over three assets, two of them sharing the exchange name 1, and one with a
 /// spec in asset units; plus a perpetual on each exchange), a mock for every indexed exchange (added
@@ -1389,6 +1475,12 @@ fn generate(seed: u64, n_cases: usize, tier: &str) {
     for k in 0..(n_cases / 6).max(6) {
         let mut r = rd.fork();
         emit_random_from(&mut out, &mut r, format!("d{}", k + 1), thorough, true);
+    }
+    // configuration-shape family: its own seed, so every case above stays what it was
+    let mut rc = Rng::new(seed ^ 0xCF61_0C4D);
+    for k in 0..(n_cases / 12).max(12) {
+        let mut r = rc.fork();
+        emit_cfg(&mut out, &mut r, format!("cfg{}", k + 1), k);
     }
     out.flush();
 }
